@@ -278,7 +278,7 @@ pub fn flate_decode(data: &[u8], params: &LZWFlateParams) -> Result<Vec<u8>> {
     let predictor = params.predictor as usize;
     let n_components = params.n_components as usize;
     let columns = params.columns as usize;
-    let stride = columns * n_components;
+    let bits_per_component = params.bits_per_component as usize;
 
 
     // First flate decode
@@ -297,6 +297,15 @@ pub fn flate_decode(data: &[u8], params: &LZWFlateParams) -> Result<Vec<u8>> {
 
     if predictor > 10 {
         let inp = decoded; // input buffer
+        // bytes per pixel (at least one) and per row (rounded up); hostile parameters must not overflow
+        let pixel_bits = try_opt!(n_components.checked_mul(bits_per_component));
+        let row_bits = try_opt!(pixel_bits.checked_mul(columns));
+        let stride = try_opt!(row_bits.checked_add(7)) / 8;
+        let bpp = if pixel_bits < 8 { 1 } else { pixel_bits / 8 };
+        if stride >= inp.len() {
+            // not one complete row; also keeps the buffers below proportional to the data
+            return Ok(Vec::new());
+        }
         let rows = inp.len() / (stride+1);
         
         // output buffer
@@ -321,7 +330,7 @@ pub fn flate_decode(data: &[u8], params: &LZWFlateParams) -> Result<Vec<u8>> {
                 let (prev, curr) = out.split_at_mut(out_off);
                 (&prev[last_out_off ..], &mut curr[.. stride])
             };
-            unfilter(predictor, n_components, prev_row, row_in, row_out);
+            unfilter(predictor, bpp, prev_row, row_in, row_out);
             
             last_out_off = out_off;
             
